@@ -6,6 +6,7 @@ package main
 
 import (
 	"bytes"
+	"fmt"
 	"go/ast"
 	"go/printer"
 	"go/token"
@@ -53,6 +54,16 @@ func (tr *Tr) afterCall(fr *frame, x *ssa.Call) (Val, bool) {
 	preA := tr.curA(fr)
 	env := tr.entryEnv(fr)
 	env.heap, env.old, env.oldA, env.curA = pre, pre, preA, preA
+	// the call's actual arguments are available as arg0, arg1, ... (receiver first)
+	argNames := map[string]Val{}
+	for i, a := range x.Call.Args {
+		v := tr.val(fr, a)
+		if v.Nil {
+			v = Val{T: tr.C.zero(a.Type()), Ty: a.Type()}
+		}
+		argNames[fmt.Sprintf("arg%d", i)] = v
+	}
+	env = env.with(argNames)
 	// havoc
 	fake := &Contract{Assigns: as.Assigns, HasAssigns: true, PkgPath: fr.contract.PkgPath}
 	tg := tr.assignTargets(fr, fake, env)
@@ -81,7 +92,7 @@ func (tr *Tr) afterCall(fr *frame, x *ssa.Call) (Val, bool) {
 	tr.assume("true", app(">=", newA, oldA))
 	fr.heap.m["ALLOC"] = newA
 	res := tr.freshResult(fr, x.Type(), "ret_after")
-	post := tr.entryEnv(fr)
+	post := tr.entryEnv(fr).with(argNames)
 	post.heap, post.old, post.oldA, post.curA = fr.heap, pre, preA, tr.curA(fr)
 	if len(res.Tuple) > 0 {
 		post.results = res.Tuple
